@@ -112,6 +112,8 @@ def self_gated(ctx, chain, e):
 
 
 def run(ctx):
+    from ._shared import ragged_opener_mode_agreement
+    ragged_opener_mode_agreement(ctx, 'D4')
     repo, E = ctx.repo, ctx.E
     GA = GateAnalysis(ctx, ModeGate())
     ents = entries(ctx)
